@@ -275,6 +275,7 @@ class Normalizer:
         self.stats = {'inlined_calls': 0, 'dehoisted': 0, 'constants': 0, 'idioms': 0, 'removed_defs': 0, 'refused': 0}
         self.log: List[str] = []
         self.temps = set()
+        self.canonical = {}
 
     # ------------------------------------------------------------------ index
     def _index(self):
@@ -324,7 +325,55 @@ class Normalizer:
             return False
         if d.name.startswith('__') and d.name.endswith('__'):
             return False
-        return d.qual not in inv['functions']
+        return self.canonical.get(id(d), d.qual) not in inv['functions']
+
+    def _match_renames(self):
+        """A function that is not in the inventory is a *new* helper unless an inventory function of the same scope
+        has disappeared and this one looks like it (same kind, similar size): then it is that function under a new
+        name and stays opaque (renaming a nested function must not change what the rules see)."""
+        self.canonical = {}
+        for rel, defs in self.defs.items():
+            inv = self.inv.get(rel)
+            if inv is None:
+                continue
+            known = set(inv['functions'])
+            prof = inv.get('profiles', {})
+
+            def scope(children, prefix):
+                present = {c.name: c for c in children}
+                inv_here = [q for q in known if q.startswith(prefix) and '.' not in q[len(prefix):]]
+                missing = [q for q in inv_here if q[len(prefix):] not in present]
+                unknown = [c for c in children if prefix + c.name not in known]
+                for c in children:
+                    self.canonical[id(c)] = prefix + c.name
+                if missing and unknown:
+                    cands = []
+                    for c in unknown:
+                        a = c.node.args
+                        me = {'nargs': len(a.posonlyargs + a.args + a.kwonlyargs), 'async': isinstance(c.node, ast.AsyncFunctionDef), 'gen': any(isinstance(x, (ast.Yield, ast.YieldFrom)) for x in _local_walk(c.node)), 'size': sum(1 for _ in ast.walk(c.node))}
+                        for q in missing:
+                            p_ = prof.get(q)
+                            if p_ is None or p_['async'] != me['async'] or p_['gen'] != me['gen']:
+                                continue
+                            sim = (1.0 if p_['nargs'] == me['nargs'] else 0.6) * (1 - abs(p_['size'] - me['size']) / max(p_['size'], me['size'], 1))
+                            if sim >= 0.5:
+                                cands.append((sim, id(c), c, q))
+                    used_c, used_q = set(), set()
+                    for sim, _i, c, q in sorted(cands, key=lambda x: -x[0]):
+                        if id(c) in used_c or q in used_q:
+                            continue
+                        used_c.add(id(c))
+                        used_q.add(q)
+                        self.canonical[id(c)] = q
+                        self.log.append(f'{rel}: {prefix}{c.name} is taken to be the renamed {q}')
+                for c in children:
+                    sub = [x for x in defs if x.owner is c]
+                    if sub:
+                        scope(sub, self.canonical[id(c)] + '.<locals>.')
+
+            scope([d for d in defs if d.owner is None and d.cls is None], '')
+            for cname, cnode in self.classes[rel].items():
+                scope([d for d in defs if d.owner is None and d.cls is cnode], cname + '.')
 
     # ------------------------------------------------------------- resolution
     def _class_bases(self, rel, cls: ast.ClassDef):
@@ -1464,6 +1513,7 @@ class Normalizer:
     # -------------------------------------------------------------------- run
     def run(self):
         self._index()
+        self._match_renames()
         self._constants()
         for rel in sorted(self.trees):
             for d in list(self.defs[rel]):
